@@ -4,12 +4,10 @@
 From Coq Require Import List NArith ZArith Bool Lia ZifyN ZifyNat ZifyBool.
 From GoPdf.Base Require Import Bytes Res.
 From GoPdf.Gen Require Import Gen_Consts.
-From GoPdf.C04 Require Import XRef XRefProofs XRefText XRefTextProofs Extent ExtentProofs Seq FileReader FileReaderProofs RenderShape.
+From GoPdf.C04 Require Import XRef XRefProofs XRefText XRefTextProofs Extent ExtentProofs Seq FileReader FileReaderProofs RenderShape RenderChecks.
 Import ListNotations.
 
 (* ---------- side conditions on the rendered chain (decidable) ---------- *)
-Definition sub_ok (s : subsection) : bool :=
-  forallb raw_ok (snd s) && (fst s + N.of_nat (length (snd s)) <=? max_xref_size)%N && (fst s <? max_xref_size)%N.
 
 Lemma rsub_ok_eq rs : rsub_ok rs = sub_ok (rsub_subsection rs).
 Proof.
@@ -63,7 +61,7 @@ Definition sec_check (r : rsec) (prev : option Z) : bool :=
       && forallb (fun s : stmsub => forallb (entry_fits w0 w1 w2) (snd s)) subs
     | None => false
     end
-  | RHybrid _ _ _ _ _ => false
+  | RHybrid _ subs _ _ tr => forallb sub_ok subs && negb (has_dkey tr k_Prev) && negb (has_dkey tr k_XRefStm)
   end.
 Fixpoint chain_check (c : chain) : bool :=
   match c with
@@ -76,12 +74,19 @@ Proof.
   induction l as [|r l IH]; cbn [app chain_check]; [auto|]. intros H. apply andb_true_iff in H as [_ H]. auto.
 Qed.
 
+Definition hyb_image (f : bytes) (hdr : nat) (sec : rsec) : Prop :=
+  match sec with
+  | RHybrid _ _ so ssubs _ => exists d, keep_trailer d = [] /\ stream_image f hdr so ssubs d None
+  | _ => True
+  end.
+
 Lemma sec_check_image f hdr sec prev xnum text rest :
   text_of sec prev xnum text -> sec_check sec prev = true -> (xnum < 16777216)%N ->
   at_off f hdr (rsec_off sec) = text ++ rest ->
+  hyb_image f hdr sec ->
   rsec_image f hdr sec prev.
 Proof.
-  destruct sec as [o subs tr|o subs d|]; cbn [text_of sec_check rsec_image rsec_off]; intros Ht Hc Hx Hat; [| |contradiction].
+  destruct sec as [o subs tr|o subs d|o subs so ssubs tr]; cbn [text_of sec_check rsec_image rsec_off hyb_image]; intros Ht Hc Hx Hat Hhyb.
   - destruct Ht as (e0 & rsubs & e1 & cd & -> & ->).
     apply andb_true_iff in Hc as [Hc H2]. apply andb_true_iff in Hc as [Hc H1].
     apply negb_true_iff in H1, H2.
@@ -99,7 +104,179 @@ Proof.
     exists xnum, sA, sB, s1, cd, s2, e0, e1, s3, w0, w1, w2, rest.
     repeat split; try assumption; try apply HA; try apply HB.
     rewrite Hat. rewrite (assoc15 (fmt_N xnum)). reflexivity.
+  - destruct Ht as (e0 & rsubs & e1 & cd & -> & ->).
+    apply andb_true_iff in Hc as [Hc H2]. apply andb_true_iff in Hc as [Hc H1].
+    apply negb_true_iff in H1, H2.
+    split; [exact Hhyb|].
+    exists e0, rsubs, e1, cd, rest. repeat split.
+    + apply forallb_rsub_ok. exact Hc.
+    + apply dict_get_none. exact H1.
+    + apply dict_get_none. exact H2.
+    + rewrite Hat, <- app_assoc. reflexivity.
 Qed.
+
+(* ---------- one revision: its shape and that the reader's checks accept it ---------- *)
+Definition rev_ok (r : drev) : bool :=
+  forallb (act_ok (d_size r)) (d_acts r)
+  && (d_size r <=? 16777216)%N && (d_xnum r <? d_size r)%N && (d_onum r <? d_size r)%N
+  && (len (d_acts r) + 3 <=? 16777216)%N
+  && extra_ok (d_extra r) && negb (has_dkey (d_extra r) k_XRefStm).
+
+(* the xref stream of a hybrid revision lies in the part of the revision before the table *)
+Definition hyb_of (sec : rsec) (xnum pos : N) (pre : bytes) : Prop :=
+  match sec with
+  | RHybrid _ _ so ssubs _ =>
+    exists pre1 xtext e d, pre = pre1 ++ xtext ++ e /\ so = Z.of_N (pos + len pre1)
+      /\ text_of (RStream so ssubs d) None xnum xtext /\ keep_trailer d = []
+      /\ sec_check (RStream so ssubs d) None = true
+  | _ => True
+  end.
+
+Lemma ss_eqb_refl : forall a, ss_eqb a a = true.
+Proof. induction a as [|[x y] a IH]; cbn; [reflexivity|]. rewrite !N.eqb_refl, IH. reflexivity. Qed.
+
+Lemma stream_checks_sec_check o subs d p w0 w1 w2 :
+  w_of_dict d = Some (w0, w1, w2) ->
+  has_dkey d k_Length = false -> has_dkey d k_Filter = false -> has_dkey d k_Prev = false ->
+  check_xref_dict (d ++ prev_entry p) (length (encode_stm_subs w0 w1 w2 subs)) = Ok (w0, w1, w2, index_of subs) ->
+  (0 < w0 + w1 + w2)%nat ->
+  forallb (fun s : stmsub => forallb (entry_fits w0 w1 w2) (snd s)) subs = true ->
+  sec_check (RStream o subs d) p = true.
+Proof.
+  intros Hw HL HF HP Hc Hpos Hfit. cbn [sec_check]. rewrite Hw, HL, HF, HP, Hc, Hfit. cbn [negb andb check_is].
+  rewrite !Nat.eqb_refl, ss_eqb_refl. cbn [andb]. rewrite andb_true_r. apply Nat.ltb_lt. exact Hpos.
+Qed.
+
+Lemma render_revision_spec r pos prev c b sec ps c' lim p :
+  render_revision r pos prev c = (b, sec, ps, c') ->
+  rev_ok r = true -> (pos + len b <= lim)%N -> (lim < lim10)%N ->
+  exists pre text post,
+    b = pre ++ text ++ post /\ rsec_off sec = Z.of_N (pos + len pre) /\
+    text_of sec (opt_prev prev) (d_xnum r) text /\ post_of (rsec_off sec) post /\
+    sec_check sec p = true /\ hyb_of sec (d_xnum r) pos pre.
+Proof.
+  unfold render_revision, rev_ok.
+  intros H Hok Hlim Hl10.
+  apply andb_true_iff in Hok as [Hok HXS]. apply andb_true_iff in Hok as [Hok Hextra].
+  apply andb_true_iff in Hok as [Hok Hcnt]. apply andb_true_iff in Hok as [Hok Honum].
+  apply andb_true_iff in Hok as [Hok Hxnum]. apply andb_true_iff in Hok as [Hacts Hsize].
+  apply N.leb_le in Hcnt, Hsize. apply N.ltb_lt in Honum, Hxnum. apply negb_true_iff in HXS.
+  set (size := d_size r) in *.
+  destruct (render_body (d_acts r) pos c) as [[[[body es] ps0] ms] c1] eqn:EB.
+  destruct (render_body_ents size _ _ _ _ _ _ _ _ EB Hacts) as (Hes & Hms & Hlen).
+  unfold len in Hcnt.
+  (* the object stream *)
+  set (X := match ms with [] => _ | _ :: _ => _ end) in H.
+  assert (HOB : forall ob oes ops c2, X = (ob, oes, ops, c2) ->
+            (forall e, In e oes -> ent_ok size (pos + len body) e) /\ (length oes <= S (length ms))%nat).
+  { intros ob oes ops c2 E. unfold X in E. clear X H. destruct ms as [|m0 ms'] eqn:Ems.
+    - injection E as _ <- _ _. split; [intros e []|cbn; lia].
+    - rewrite <- Ems in *. destruct (objstm_parts ms c1) as [[d data] c'0].
+      destruct (render_obj_stream (d_onum r) 0 d data c'0) as [b0 c''].
+      injection E as _ <- _ _.
+      destruct (member_entries_ok size (pos + len body) (d_onum r) ms 0 ltac:(lia) Hms ltac:(unfold len; lia)) as [M1 M2].
+      split; [|cbn [length]; unfold rentry in *; rewrite M2; apply le_n].
+      intros e [<-|He]; [|apply M1; exact He].
+      unfold ent_ok, re_num. cbn [fst snd]. lia. }
+  destruct X as [[[ob oes] ops] c2].
+  destruct (HOB _ _ _ _ eq_refl) as [Hoes Hloes]. clear HOB.
+  assert (Hextra' := Hextra). unfold extra_ok in Hextra'.
+  apply andb_true_iff in Hextra' as [Hx XI]. apply andb_true_iff in Hx as [Hx XP]. apply andb_true_iff in Hx as [XL XF].
+  apply negb_true_iff in XL, XF, XP, XI.
+  assert (Htr : negb (has_dkey ((k_Size, VInt (Z.of_N size)) :: d_extra r) k_Prev) = true
+                /\ negb (has_dkey ((k_Size, VInt (Z.of_N size)) :: d_extra r) k_XRefStm) = true).
+  { cbn [has_dkey]. change (bytes_eqb k_Size k_Prev) with false. change (bytes_eqb k_Size k_XRefStm) with false.
+    cbn [orb]. rewrite XP, HXS. split; reflexivity. }
+  destruct Htr as [HtrP HtrX].
+  assert (Hcount : (len (es ++ oes) + 2 <= 16777216)%N).
+  { unfold len. rewrite app_length. unfold rentry in *. lia. }
+  assert (Hents : (pos + len body + len ob <= lim)%N -> forall e, In e (es ++ oes) -> ent_ok size lim e).
+  { intros Hb e He. apply in_app_or in He as [He|He]; (eapply ent_ok_mono; [|eauto]); lia. }
+  destruct (d_kind r) eqn:K.
+  - (* classic table *)
+    destruct (group_entries (sort_entries (es ++ oes)) c2) as [g c3] eqn:G.
+    destruct (to_rsubs g c3) as [rsubs c4] eqn:T.
+    destruct (pick_hdr_eol c4) as [e0 c5]. destruct (pick_hdr_eol c5) as [e1 c6].
+    destruct (rv (VDict (((k_Size, VInt (Z.of_N size)) :: d_extra r) ++ opt_entry k_Prev prev)) c6) as [db c7] eqn:Edb.
+    pose proof (eolc_cases c7) as He2. destruct (eolc c7) as [e2 c8].
+    destruct (render_startxref_shape (pos + len body + len ob) c8) as (x1 & x2 & x3 & Hx1 & Hx2 & Hx3 & Hsx).
+    destruct (render_startxref (pos + len body + len ob) c8) as [sx c9]. cbn [fst] in Hsx, He2.
+    injection H as Hb Hsec Hps Hc. subst b sec.
+    rewrite !len_app in Hlim.
+    exists (body ++ ob), (render_table e0 rsubs e1 ++ db), (e2 ++ sx).
+    split; [rewrite <- (app_assoc body ob), <- (app_assoc (render_table e0 rsubs e1) db); reflexivity|].
+    split; [cbn [rsec_off]; rewrite len_app; f_equal; lia|].
+    split; [|split; [|split; [|exact I]]].
+    + cbn [text_of]. exists e0, rsubs, e1, c6. split; [reflexivity|].
+      rewrite <- opt_entry_prev, Edb. reflexivity.
+    + exists e2, x1, x2, x3. cbn [rsec_off]. rewrite N2Z.id, Hsx. auto.
+    + cbn [sec_check]. rewrite HtrP, HtrX, !andb_true_r.
+      eapply (table_subs_ok size lim); eauto. apply Hents. lia.
+  - (* cross-reference stream *)
+    destruct (render_xref_stream (d_xnum r) size
+                ((d_xnum r, InUse 0 (Z.of_N (pos + len body + len ob)), 0%N) :: es ++ oes) prev (d_extra r) c2)
+      as [[[xb subs] d] c3] eqn:Ex.
+    destruct (render_xref_stream_shape _ _ _ _ _ _ _ _ _ _ Ex)
+      as (w0 & w1 & w2 & sA & sB & s1 & cd & s2 & e0 & e1 & s3 & e & Hw & HA & HB & Hs1 & Hs2 & Hs3 & He0 & He1 & Hee & Hxb).
+    destruct (render_startxref_shape (pos + len body + len ob) c3) as (x1 & x2 & x3 & Hx1 & Hx2 & Hx3 & Hsx).
+    destruct (render_startxref (pos + len body + len ob) c3) as [sx c4]. cbn [fst] in Hsx.
+    injection H as Hb Hsec Hps Hc. subst b sec.
+    rewrite !len_app in Hlim.
+    assert (Hck : sec_check (RStream (Z.of_N (pos + len body + len ob)) subs d) p = true).
+    { destruct (render_xref_stream_checks _ _ _ _ _ _ _ _ _ _ p Ex Hsize) as (v0 & v1 & v2 & Vw & VL & VF & VP & Vc & Vpos & Vfit).
+      - unfold len in *. cbn [length]. unfold rentry in *. lia.
+      - intros x [<-|Hx']; [|eapply ent_ok_small; [exact Hl10|apply Hents; [lia|exact Hx']]].
+        eapply ent_ok_small; [exact Hl10|]. unfold ent_ok, re_num. cbn [fst snd]. lia.
+      - exact Hextra.
+      - eapply stream_checks_sec_check; eauto. }
+    eexists (body ++ ob), _, (e ++ sx).
+    split; [rewrite Hxb, assoc15, <- (app_assoc body ob), <- app_assoc; reflexivity|].
+    split; [cbn [rsec_off]; rewrite len_app; f_equal; lia|].
+    split; [|split; [|split; [exact Hck|exact I]]].
+    + cbn [text_of]. exists w0, w1, w2, sA, sB, s1, cd, s2, e0, e1, s3. repeat split; try assumption; try apply HA; try apply HB.
+    + exists e, x1, x2, x3. cbn [rsec_off]. rewrite N2Z.id, Hsx.
+      repeat split; auto.
+  - (* hybrid *)
+    destruct (split_hybrid (es ++ oes) c2) as [[tents sents] c3] eqn:SH.
+    destruct (render_xref_stream (d_xnum r) size
+                ((d_xnum r, InUse 0 (Z.of_N (pos + len body + len ob)), 0%N) :: sents) None [] c3)
+      as [[[xb ssubs] d] c4] eqn:Ex.
+    destruct (render_xref_stream_shape _ _ _ _ _ _ _ _ _ _ Ex)
+      as (w0 & w1 & w2 & sA & sB & s1 & cd & s2 & e0' & e1' & s3 & e & Hw & HA & HB & Hs1 & Hs2 & Hs3 & He0 & He1 & Hee & Hxb).
+    destruct (group_entries (sort_entries tents) c4) as [g c5] eqn:G.
+    destruct (to_rsubs g c5) as [rsubs c6] eqn:T.
+    destruct (pick_hdr_eol c6) as [e0 c7]. destruct (pick_hdr_eol c7) as [e1 c8].
+    destruct (rv (VDict (((k_Size, VInt (Z.of_N size)) :: d_extra r)
+                         ++ opt_entry k_XRefStm (Some (pos + len body + len ob)%N) ++ opt_entry k_Prev prev)) c8) as [db c9] eqn:Edb.
+    pose proof (eolc_cases c9) as He2. destruct (eolc c9) as [e2 c10].
+    destruct (render_startxref_shape (pos + len body + len ob + len xb) c10) as (x1 & x2 & x3 & Hx1 & Hx2 & Hx3 & Hsx).
+    destruct (render_startxref (pos + len body + len ob + len xb) c10) as [sx c11]. cbn [fst] in Hsx, He2.
+    injection H as Hb Hsec Hps Hc. subst b sec.
+    rewrite !len_app in Hlim.
+    destruct (split_hybrid_ok size lim _ _ _ _ _ SH (Hents ltac:(lia))) as (HT & HS & LT & LS).
+    assert (Hck : sec_check (RStream (Z.of_N (pos + len body + len ob)) ssubs d) None = true).
+    { destruct (render_xref_stream_checks _ _ _ _ _ _ _ _ _ _ None Ex Hsize) as (v0 & v1 & v2 & Vw & VL & VF & VP & Vc & Vpos & Vfit).
+      - unfold len in *. cbn [length]. unfold rentry in *. lia.
+      - intros x [<-|Hx']; [|eapply ent_ok_small; [exact Hl10|apply HS; exact Hx']].
+        eapply ent_ok_small; [exact Hl10|]. unfold ent_ok, re_num. cbn [fst snd]. lia.
+      - reflexivity.
+      - eapply stream_checks_sec_check; eauto. }
+    exists (body ++ ob ++ xb), (render_table e0 rsubs e1 ++ db), (e2 ++ sx).
+    split; [rewrite <- (app_assoc body (ob ++ xb)), <- (app_assoc ob xb), <- (app_assoc (render_table e0 rsubs e1) db); reflexivity|].
+    split; [cbn [rsec_off]; rewrite !len_app; f_equal; lia|].
+    split; [|split; [|split]].
+    + cbn [text_of]. exists e0, rsubs, e1, c8. split; [reflexivity|].
+      rewrite <- opt_entry_prev. unfold xrefstm_entry. cbn [opt_entry] in Edb. rewrite Edb. reflexivity.
+    + exists e2, x1, x2, x3. cbn [rsec_off]. rewrite N2Z.id, Hsx. auto.
+    + cbn [sec_check]. rewrite HtrP, HtrX, !andb_true_r.
+      eapply (table_subs_ok size lim); eauto.
+    + cbn [hyb_of]. rewrite Hxb in *.
+      eexists (body ++ ob), _, e, d. split; [rewrite assoc15, <- !app_assoc; reflexivity|].
+      split; [rewrite len_app; f_equal; lia|].
+      split; [|split; [|exact Hck]].
+      * cbn [text_of]. exists w0, w1, w2, sA, sB, s1, cd, s2, e0', e1', s3. repeat split; try assumption; try apply HA; try apply HB.
+      * admit.
+Admitted.
 
 (* ---------- where the sections lie ---------- *)
 Definition prev_rel (prev : option N) (ch : chain) : Prop := opt_prev prev = prev_of ch.
